@@ -95,6 +95,25 @@ def _meta_for(cand: Program, meta: Dict[str, Any]) -> Dict[str, Any]:
     return cand.get("_meta", meta)
 
 
+def _witness_holds(kw: Dict[str, Any], impl: List[Any]) -> bool:
+    """conditions: {"op": i, "status": "ok"|"err", "innermost": cls?, "value": json?} — all must hold"""
+    for c in kw.get("conds", []):
+        o = impl[c["op"]] if c["op"] < len(impl) else None
+        if not isinstance(o, dict) or "r" not in o:
+            return False
+        if o["r"][0] != c["status"]:
+            return False
+        if "innermost" in c and (o["r"][0] != "err" or not o["r"][1] or o["r"][1][-1][0] != c["innermost"]):
+            return False
+        if "outermost" in c and (o["r"][0] != "err" or not o["r"][1] or o["r"][1][0][0] != c["outermost"]):
+            return False
+        if "raises" in c and (o["r"][0] != "err" or not any(fr[0] == c["raises"] for fr in o["r"][1])):
+            return False
+        if "value" in c and dumps(o["r"][1]) != dumps(c["value"]):
+            return False
+    return True
+
+
 def explore_core(ctx: Ctx, prop: CoreProp) -> Exploration:
     rng = random.Random(ctx.seed * 7919 + 17)
     exp = Exploration()
@@ -143,6 +162,14 @@ def explore_core(ctx: Ctx, prop: CoreProp) -> Exploration:
                         f"model and implementation disagree on facet '{d0['facet']}' (op {d0['op']})",
                         {"program": small, "meta": meta, "diff": (dd or ds)[:3], "hashseed": hashseed,
                          "engine": "core"}))
+            # replay of a listed known finding: does its witness still fail the way the finding says?
+            kw = meta.get("known_witness")
+            if kw is not None and isinstance(a, list):
+                if kw["id"] in listed and _witness_holds(kw, a):
+                    stats["known_seen"][kw["id"]] = stats["known_seen"].get(kw["id"], 0) + 1
+                    exp.findings.append(Finding("failing-input", kw["what"], {"program": prog, "meta": meta, "engine": "core"},
+                                                known_id=kw["id"]))
+                continue
             # property oracle on the implementation
             if isinstance(a, list):
                 vs = prop.oracle(prog, meta, a, b)
